@@ -50,6 +50,50 @@ def _reach(P):
     return roots, seen
 
 
+def _reset_sites(P, body, f):
+    """Blocks of `body` in which a freshly constructed value is stored into interior-mutable field f (through borrow_mut/lock)."""
+    S = T.Slicer(body, P)
+    out = []
+    for i, j, s in body.iter_stmts():
+        if s["k"] == "assign" and s["p"]["pr"] and s["p"]["pr"][0] == "*":
+            base = S.local(s["p"]["l"], i, j)
+            if any(x[0] == "field" and x[2] == f for x in T.walk(base)) and (T.has_call(base, "borrow_mut") or T.has_call(base, "::lock")):
+                val = T.strip(S.rvalue(s["r"], i, j))
+                if val[0] == "call" and (val[1].endswith("::new") or val[1].endswith("::default")) and not val[2]:
+                    out.append(i)
+    # the fresh value may be the result of a call terminator assigned in the next block: handle `(*guard) = move _tmp`
+    return out
+
+
+def _reset_before_use(P, wbody, wblk, f):
+    """True if every path to the write at (wbody, wblk) passes a reset of field f: either in wbody itself (dominating),
+    or in every intra-crate caller of wbody (dominating the call)."""
+    rs = _reset_sites(P, wbody, f)
+    if any(C.dominates(wbody, r, wblk) for r in rs):
+        return True
+    # the write may itself be the reset: its guard is the base of a fresh-value store
+    S = T.Slicer(wbody, P)
+    for i, j, s in wbody.iter_stmts():
+        if i in rs and s["k"] == "assign" and s["p"]["pr"] and s["p"]["pr"][0] == "*":
+            base = S.local(s["p"]["l"], i, j)
+            if any(x[0] == "call" and len(x) > 3 and x[3] == wblk for x in T.walk(base)):
+                return True
+    callers = []
+    for b in P.bodies.values():
+        if b.crate != wbody.crate:
+            continue
+        for blk, t in b.calls():
+            if (t.get("res") or t.get("decl")) == wbody.path:
+                callers.append((b, blk))
+    if not callers:
+        return False
+    for (cb, cblk) in callers:
+        rs = _reset_sites(P, cb, f)
+        if not any(C.dominates(cb, r, cblk) and r != cblk for r in rs):
+            return False
+    return True
+
+
 def rule_R1(ctx):
     P = ctx.program
     fields = {}
@@ -87,6 +131,8 @@ def rule_R1(ctx):
             key = "%s.%s<-%s" % (owner[0].split("::")[-1] if owner else "?", f, T.short(b.path))
             if f in ALLOW_FIELDS:
                 ctx.ok("R1", key, "allowed shared state (statistics / shutdown / channel)", ctx.loc(b, blk))
+            elif _reset_before_use(P, b, blk, f):
+                ctx.ok("R1", key, "field is re-initialised (fresh value stored) before every use on the per-message path: no state survives from an earlier connection", ctx.loc(b, blk))
             else:
                 ctx.fail("R1", key,
                          "per-packet code writes `%s` (%s), state that is shared by all connections handled by this object: what one connection leaves there "
